@@ -111,11 +111,16 @@ def run(driver, rng, n, attr_list):
             orig = md.serializer
             cap = md._cap = []
             md.serializer = (lambda o, c: (lambda el: (c.append(proto.from_etree(el)), o(el))[1]))(orig, cap)
-        md._cap.clear()
+            amp = md.postprocessors['amp_substitute']
+            md._amp = []
+            amp.run = (lambda o, c: (lambda text: (c.append('\x02amp\x03' in text), o(text))[1]))(amp.run, md._amp)
+        md._cap.clear(); md._amp.clear()
         try:
             real = md.reset().convert(s)
         except Exception as e:
             cnt('impl-exc-' + type(e).__name__); mds.pop(key, None); continue
+        cnt('impl-hamp-ok' if not any(md._amp) else 'impl-hamp-VIOLATED')
+        if any(md._amp): fails.append(('impl-hamp', s, fl, 'STX amp ETX reaches AndSubstitutePostprocessor'))
         if md._cap:
             bad = wf_tree(md._cap[-1], fl, attr_list=attr_list)
             cnt('impl-tree-ok' if not bad else 'impl-tree-BAD')
